@@ -183,6 +183,14 @@ func parseSuite(s string) (otp.Suite, string, bool) {
 		case "X":
 			// a suite obtained from a constructor (for a registered name), then edited through its exported embedded
 			// configuration: whatever the constructor established about the old fields says nothing about the new ones
+			// when the edited configuration keeps a name a constructor accepts, that constructor is the base (so that anything
+			// the constructor remembered about the suite — keyed by the name, say — still "matches" after the edit)
+			if su, err := otp.NewRawSuite(c.Raw); err == nil {
+				if rs, ok := su.(otp.RawSuite); ok {
+					rs.SuiteConfig = c
+					return rs, "", true
+				}
+			}
 			names := otp.ListSuites()
 			sort.Strings(names)
 			if len(names) > 0 {
